@@ -184,3 +184,21 @@ Proof.
   exact (conj (fun unz => tunnel_dns_stages unz) (conj td_down_follows_cli_rule (conj td_accept_spec td_down_dataless))).
 Qed.
 Print Assumptions C01_client_reassembly_follows_rule.
+
+(* (E, continued) the client's upstream acknowledgement handling is the SAck rule: nothing without a packet in
+   flight or with a non-matching (seq, frag); a matching ack of the last chunk ends the packet; a matching ack of
+   an inner chunk advances the offset by what was sent and the fragment number by one and sends the next chunk *)
+Theorem C01_client_upstream_ack_rule :
+  (forall a b nf s7, is_sending s7 = false -> td_up a b nf s7 = (s7, [], nf)) /\
+  (forall a b nf s7, ((a =? k_seqno (c_out s7))%N && (Z.of_N b =? k_fragment (c_out s7))%Z = false) -> td_up a b nf s7 = (s7, [], nf)) /\
+  (forall nf s7, is_sending s7 = true -> (k_len (c_out s7) <= k_offset (c_out s7) + k_sentlen (c_out s7))%N ->
+     let r := td_up (k_seqno (c_out s7)) (Z.to_N (k_fragment (c_out s7))) nf s7 in
+     (0 <= k_fragment (c_out s7))%Z ->
+     is_sending (fst (fst r)) = false /\ k_seqno (c_out (fst (fst r))) = k_seqno (c_out s7) /\ snd (fst r) = []) /\
+  (forall nf s7, is_sending s7 = true -> (k_offset (c_out s7) + k_sentlen (c_out s7) < k_len (c_out s7))%N -> (0 <= k_fragment (c_out s7))%Z ->
+     td_up (k_seqno (c_out s7)) (Z.to_N (k_fragment (c_out s7))) nf s7 =
+     (let st := s7 <| c_out := (c_out s7) <| k_offset := (k_offset (c_out s7) + k_sentlen (c_out s7))%N |>
+                                          <| k_fragment := schar_wrap (k_fragment (c_out s7) + 1) |> |> <| c_resent := 0%N |> in
+      let '(st2, out) := send_chunk st in (st2 <| c_ping_soon := 0%N |>, out, false))).
+Proof. exact (conj td_up_idle (conj td_up_mismatch (conj td_up_last td_up_next))). Qed.
+Print Assumptions C01_client_upstream_ack_rule.
